@@ -283,7 +283,7 @@ def projection_case(ctx, rng):
 
 
 def run(ctx):
-    for _, rng in ctx.cases("spec", ctx.n(1200, 25000)):
+    for _, rng in ctx.cases("spec", ctx.budget(70000, 1400000)):
         ctx.run_case(spec_case, ctx, rng)
-    for _, rng in ctx.cases("projection", ctx.n(2500, 60000)):
+    for _, rng in ctx.cases("projection", ctx.budget(150000, 3000000)):
         ctx.run_case(projection_case, ctx, rng)
